@@ -1,6 +1,7 @@
 CONSTANTS
   Addrs = {"127.0.0.1", "127.0.0.2", "10.1.2.3"}
   Peers = {"127.0.0.1", "127.0.0.2"}
+  DualStackPeers = {"127.0.0.2"}
   Garbage = {}
   Lists = {{"127.0.0.2"}}
   MaxXff = 1
